@@ -12,7 +12,9 @@ GEN_DEADLINE_S = float(os.environ.get("VERIF_GEN_S", "120"))
 
 
 def _gen(world, key):
-    if key in world.lemmas:
+    if key in world.analyses:
+        rep = world.analyses[key][0](world)
+    elif key in world.lemmas:
         for k in world.lemmas[key].needs:  # creates the comprehension-derived functions the lemma talks about
             verify_function(world, k)
         rep = verify_lemma(world, world.lemmas[key])
